@@ -281,6 +281,41 @@ theorem refund_never_rejected (env : Env) (c : Call) (ctx : Ctx) (tok amt : Byte
       ctx'.accts = ctx.accts.write c.rcv (esdtKeyPrefix ++ tok) (storedForm { t with value := some (v + (beNat amt : Int)) }) :=
   esdtTransfer_refund_accepted env c ctx tok amt hct hrae hargs hamt hval hsnd hdst hmeta hnf t v ht hty hv hv0 hlen
 
+/-- FULL ("a refund is never rejected", ESDTNFTTransfer; all inputs, all pre-states satisfying the stated premises): the
+    refund of a refused NFT / SFT message — the library's own destination-side call with the four arguments of that
+    message, call type callback, return-after-error flag, executed on the origin shard — SUCCEEDS and writes exactly the
+    payload with `Value` := returned + kept, whenever the payload decodes to an entry with metadata and the returned plus
+    kept quantity is positive, the origin's slot under that (token, nonce) is empty or decodes, and whatever the origin
+    kept carries the payload's hash.  The last two are what the world invariants give for every reachable state (C15
+    `Canon`; C08 `metadata_intact_in_mixed_world`: every copy of an NFT — stored or in flight — has the same metadata);
+    no payability, no freeze, no pause, no gas is consulted; the remaining premises are the physical size bound and
+    "no dependency fault injected". -/
+theorem nft_refund_never_rejected (env : Env) (c : Call) (ctx : Ctx) (tok nb qb payload : Bytes)
+    (hct : c.callType = 2) (hrae : c.rae = true) (hargs : c.args = [tok, nb, qb, payload]) (hval : c.callValue = 0)
+    (hne : c.caller ≠ c.rcv)
+    (hsnd : present env.nshards env.self c.caller = false) (hdst : present env.nshards env.self c.rcv = true)
+    (hnf : ctx.failAt = none)
+    (t cur : Token) (m : MetaData) (tv cv : Int) (hdec : decToken payload = some t) (hmd : t.md = some m)
+    (hcur : tokenOf (ctx.accts.read c.rcv (nftKey (esdtKeyPrefix ++ tok) m.nonce)) = some cur)
+    (hhash : ∀ cm, cur.md = some cm → cm.hash = m.hash)
+    (htv : t.value = some tv) (hcv : cur.value = some cv) (hpos : 0 < tv + cv)
+    (hlen : (encToken { t with value := some (tv + cv) }).length < two63) :
+    ∃ out ctx', esdtNFTTransfer env c ctx = .ok (out, ctx') ∧ out.rc = 0 ∧
+      ctx'.accts = ctx.accts.write c.rcv (nftKey (esdtKeyPrefix ++ tok) m.nonce)
+        (encToken { t with value := some (tv + cv) }) :=
+  esdtNFTTransfer_refund_accepted env c ctx tok nb qb payload hct hrae hargs hval hne hsnd hdst hnf t cur m tv cv hdec hmd
+    hcur hhash htv hcv hpos hlen
+
+/-- non-vacuity: in the two-shard NFT world above alice sent 2 of her 3 pieces to bob; the refund of that message on her
+    shard (she kept 1) succeeds and she holds 3 again -/
+example : (match ((nftRun nvEnv [.user nvNXfer] nvNW0).inflight[0]?) with
+    | some msg =>
+      (match esdtNFTTransfer { nvEnv with self := 0 } (nRefundCall msg)
+          { accts := ((nftRun nvEnv [.user nvNXfer] nvNW0).shards[0]?).getD [] } with
+       | .ok (out, c') => out.rc == 0 && balOf (c'.accts.read nvAlice nvKey) == 3
+       | _ => false)
+    | none => false) = true := by decide +kernel
+
 /-! ### conservation in the ONE world that mixes all 23 functions (Proofs/Unified.lean) -/
 
 /-- steps that issue nothing: every step of the three transfer functions (user transaction, delivery, refusal, refund), and
